@@ -65,7 +65,7 @@ class Spy:
 
 class C16(Prop):
     id = 'C16'
-    budgets = {'quick': 6000, 'thorough': 120000}
+    budgets = {'quick': 20000, 'thorough': 300000}
     time_limit = {'quick': 60, 'thorough': 600}
     rule = ('seven scenario kinds (eq/text/json/decode/stream/ctype/copy), see harness/props/c16.py. decode: valid and corrupted UTF-8 '
             '(overlong, surrogates, > U+10FFFF, truncated), Latin-1, ASCII and six opaque codecs, cut at random positions incl. inside '
@@ -81,6 +81,22 @@ class C16(Prop):
                    'file objects: the read/seek contract of io.BytesIO and of open(path, "rb") is modelled (TTV.Content.seek/read), not verified',
                    'email.message header parsing is modelled by the quoted-string grammar parseCT for lower-case token type/subtype/parameter names; '
                    'inside finding class valueEncodedWord the model does not reproduce the RFC 2047 decoding (soft correspondence there)']
+
+    manifest = {
+        'text': 'Theorems for all texts, byte strings, chunkings, chunk sizes >= 1, seek offsets/origins and copy histories: as_text of ANY lawful '
+                'incremental decoder is independent of the chunking (Latin-1, ASCII and a UTF-8 state machine proved lawful; the machine proved equal to an '
+                'RFC 3629 reference decoder that accepts exactly the encodings of scalar-value texts; the encoder proved equal to core Lean\'s '
+                'String.utf8EncodeChar); text_content round-trips under every chunking; _iter_chunks yields non-empty chunks <= chunk_size that concatenate '
+                'to the bytes from the clamped seek position to EOF, lazily unless buffer_now; Content equality = type and bytes; ContentType render/parse '
+                'round trip for lower-case token names and arbitrary values outside three recorded finding classes; _copy_content copies are snapshots '
+                'evaluated once. The hand-written model is tied to the code by a differential check on instrumented streams/files, real codecs and the real '
+                'email-based parser.',
+        'note': 'partial: the content-type round trip (and hence holds_model) is proved outside the finding classes charsetComma, valueCRLF, '
+                'valueEncodedWord (the last one found by this check; inside it the model is not faithful). trusted: Lean kernel, the model '
+                'TTV/Model/Content.lean, the harness; codecs other than ISO-8859-1/ASCII/UTF-8 are opaque (law assumed, differential only); json, the '
+                'read/seek contract of BytesIO/files and the email header parser are modelled, not verified',
+        'technique': 'Lean 4 proofs (structural/functional induction, omega) over an executable model; executable spec shared with a differential correspondence check',
+    }
 
     # ------------------------------------------------------------------ implementation side
     def run_impl(self, inp):
